@@ -519,17 +519,27 @@ def ls3(F, R):
     stores = [(b, i, s) for b, i, s in fn.stmts() if s["k"] == "Assign" and s["p"]["proj"] and fn.term_of_rvalue(s["rv"], b)[:2] == ("c", 0xE5)]
     if not stores:
         R.bad(fn, "tombstone", "delete_entry_in_block does not store the 0xE5 tombstone into the matched slot's first byte (a different marker changes where the listing ends)")
+    from .ev import guarded_through
     for b, i, s in stores:
-        ok1, _ = guarded(fn, b, g_call("OnDiskDirEntry::matches", True))
-        ok2, _ = guarded(fn, b, g_call("OnDiskDirEntry::is_end", False))
+        ok1 = guarded_through(fn, b, g_call("OnDiskDirEntry::matches", True))
+        ok2 = guarded_through(fn, b, g_call("OnDiskDirEntry::is_end", False))
         R.require(ok1, fn, "del-matches", "0xE5 store reachable without matches()", fn.loc(b, i))
         R.require(ok2, fn, "del-not-end", "0xE5 store reachable past the end marker", fn.loc(b, i))
     # lookup and delete select a slot by the same test, and by nothing else (a delete marks the very entry the lookup returned)
-    def hit_tests(f, hit_block):
+    def hit_tests(f, hit_block, depth=0):
         out = set()
         for (gb, gi, g) in all_guards(f):
-            if g.kind == "bool" and g.term[0] == "call" and g.term[1] and f.unreachable_without(hit_block, [(gb, gi)]):
+            if not f.unreachable_without(hit_block, [(gb, gi)]):
+                continue
+            if g.kind == "bool" and g.term[0] == "call" and g.term[1]:
                 out.add((g.term[1].split("::")[-1], g.truth))
+            elif g.kind == "variant" and g.variant == "Some" and strip_refs(g.term)[0] == "var" and depth < 2:
+                # the slot was selected earlier and carried here in an Option local: the tests in front of its Some definitions
+                for d in f.defs().get(strip_refs(g.term)[1], []):
+                    if d[0] == "assign":
+                        dv = strip_refs(f.term_of_rvalue(d[3], d[1]))
+                        if dv[0] == "agg" and dv[2] and dv[2].endswith("Option::Some"):
+                            out |= hit_tests(f, d[1], depth + 1)
         return out
     fe = F.fn("FatVolume::find_entry_in_block")
     de = F.fn("FatVolume::delete_entry_in_block")
